@@ -30,7 +30,7 @@ pub const STUB_ASSUMPTIONS: &[&str] = &[
 pub const CHECKS: &[Check] = &[
     Check {
         id: "C01",
-        scenarios: &[("life", 300_000, 6_000_000), ("pool", 100_000, 2_000_000), ("teardown", 100_000, 2_000_000)],
+        scenarios: &[("life", 300_000, 6_000_000), ("pool", 100_000, 2_000_000), ("teardown", 100_000, 2_000_000), ("mt-teardown", 15_000, 400_000)],
         owns: &["mem.freed-while-kernel-owns"],
         level: "exploration",
         rule: "one case = one seeded run of a random program (3-40 steps: create/poll/drop operations of ~55 kinds, Ring::poll, kernel consume/complete with drawn outcomes, descriptor and ring drops) against the simulated kernel; distinct = distinct abstract trace hash (sequence of actor/action/op kind/outcome class); non-trivial = at least one fault fired or the kernel acted at a yield point inside a10",
@@ -75,7 +75,7 @@ pub const CHECKS: &[Check] = &[
     },
     Check {
         id: "C06",
-        scenarios: &[("life", 350_000, 7_000_000), ("restart", 150_000, 3_000_000)],
+        scenarios: &[("life", 350_000, 7_000_000), ("restart", 150_000, 3_000_000), ("mt-teardown", 15_000, 400_000)],
         owns: &["cancel.", "mem.double-free", "mem.leak"],
         level: "exploration",
         rule: "one case = one seeded run; at every drop the submissions made by the drop are inspected (at most one ASYNC_CANCEL aimed at that operation), the allocator detects double frees, and live a10 allocations are counted after everything was dropped; distinct = distinct abstract trace hash; non-trivial = fault fired or kernel acted at a yield point",
@@ -93,7 +93,7 @@ pub const CHECKS: &[Check] = &[
     },
     Check {
         id: "C08",
-        scenarios: &[("pool", 450_000, 9_000_000), ("mt-pool", 20_000, 500_000), ("pool-wrap", 0, 48)],
+        scenarios: &[("pool", 450_000, 9_000_000), ("mt-pool", 20_000, 500_000), ("pool-wrap", 32, 96)],
         owns: &["pool."],
         level: "exploration",
         rule: "one case = one seeded history of pool reads, multishot reads, edits, releases and drops; after every step {kernel window} + {owned by live ReadBufs} partitions the pool; distinct = distinct abstract trace hash; non-trivial = fault fired, kernel acted at a yield point or thread switch",
@@ -120,7 +120,7 @@ pub const CHECKS: &[Check] = &[
     },
     Check {
         id: "C11",
-        scenarios: &[("mt-wake", 40_000, 1_000_000)],
+        scenarios: &[("mt-wake", 150_000, 3_000_000)],
         owns: &["wakeup."],
         level: "exploration",
         rule: "one case = one seeded interleaving of a poller thread and 1-3 waker threads (baton scheduler) on default, SQPOLL and single-issuer rings; a poll that started after a completed wake() must not block until its timeout; distinct = distinct abstract trace hash; non-trivial = a thread switch happened",
@@ -129,7 +129,7 @@ pub const CHECKS: &[Check] = &[
     },
     Check {
         id: "C12",
-        scenarios: &[("teardown", 500_000, 10_000_000)],
+        scenarios: &[("teardown", 450_000, 9_000_000), ("mt-teardown", 25_000, 600_000)],
         owns: &["teardown.", "mem.leak", "mem.double-free", "mem.freed-while-kernel-owns"],
         level: "exploration",
         rule: "one case = one seeded object graph (ring, queue clones, descriptors, operations in every state, pools, buffers) dropped in a drawn order; guard pages, mmap ledger, descriptor ledger, registrations and allocator are checked afterwards; distinct = distinct abstract trace hash; non-trivial = fault fired or kernel acted at a yield point",
@@ -157,7 +157,7 @@ pub const CHECKS: &[Check] = &[
     Check {
         id: "C18",
         scenarios: &[("build", 300_000, 6_000_000)],
-        owns: &["build."],
+        owns: &["build.", "teardown.mmap-imbalance"],
         level: "fault_enumeration",
         rule: "one case = one configuration (sizes, clamp, kernel thread, affinity, single issuer, defer taskrun, disabled, attach, direct descriptors) x one fault point (none, setup errno, each required feature missing, mmap 1-3, madvise 1-3, register failure); every fault point is hit; distinct = distinct (configuration class, fault point, outcome) cell",
         assumptions: STUB_ASSUMPTIONS,
@@ -389,8 +389,8 @@ fn run_workers(bin: &std::path::Path, scenario: &str, seed: u64, total: u64, bud
                             local.violations.push((
                                 scenario.to_string(),
                                 idx,
-                                class,
-                                "the process touched guarded memory (SIGSEGV)".to_string(),
+                                class.clone(),
+                                if class == "abort" { "the process aborted (a panic that cannot unwind, e.g. a misaligned or null pointer dereference check)".to_string() } else { "the process touched guarded memory (SIGSEGV)".to_string() },
                             ));
                             local.runs += idx.saturating_sub(start) / workers + 1;
                             next = Some(idx + workers);
@@ -499,22 +499,60 @@ pub fn tape_run(scenario: &str, tape_values: Vec<u32>, log: bool) -> Vec<String>
     classes
 }
 
+/// Runs this binary with `args`; a child still running after `secs` gets the
+/// watchdog's SIGTERM (it then prints `HUNG run=`), and SIGKILL a second later.
+/// Returns what it wrote to stdout.
+fn child_output(args: &[&str], secs: u64) -> Option<String> {
+    use std::io::Read;
+    let mut child = Command::new(exe())
+        .args(args)
+        .stdout(Stdio::piped())
+        .stderr(Stdio::null())
+        .spawn()
+        .ok()?;
+    let mut stdout = child.stdout.take()?;
+    let reader = std::thread::spawn(move || {
+        let mut buf = Vec::new();
+        let _ = stdout.read_to_end(&mut buf);
+        buf
+    });
+    let deadline = Instant::now() + Duration::from_secs(secs);
+    let mut termed: Option<Instant> = None;
+    loop {
+        match child.try_wait() {
+            Ok(Some(_)) => break,
+            Ok(None) => {}
+            Err(_) => break,
+        }
+        let now = Instant::now();
+        match termed {
+            None if now >= deadline => {
+                unsafe { libc::kill(child.id() as i32, libc::SIGTERM) };
+                termed = Some(now);
+            }
+            Some(t) if now >= t + Duration::from_secs(1) => {
+                let _ = child.kill();
+                let _ = child.wait();
+                break;
+            }
+            _ => {}
+        }
+        std::thread::sleep(Duration::from_millis(2));
+    }
+    let buf = reader.join().ok()?;
+    Some(String::from_utf8_lossy(&buf).to_string())
+}
+
 /// Does `tape` still produce `class`? Runs in a child process.
 fn reproduces(scenario: &str, tape_values: &[u32], class: &str) -> bool {
     let text: Vec<String> = tape_values.iter().map(u32::to_string).collect();
-    let out = Command::new(exe())
-        .arg("tape-run")
-        .arg(scenario)
-        .arg(text.join(","))
-        .stderr(Stdio::null())
-        .output();
-    let Ok(out) = out else { return false };
-    let s = String::from_utf8_lossy(&out.stdout);
+    let Some(s) = child_output(&["tape-run", scenario, &text.join(",")], 10) else { return false };
     s.lines().any(|l| {
         l.strip_prefix("CLASS ")
             .is_some_and(|r| r.split(' ').next() == Some(class))
             || l.strip_prefix("SEGV class=")
                 .is_some_and(|r| r.split(' ').next() == Some(class))
+            || (class == "hang" && l.starts_with("HUNG run="))
     })
 }
 
@@ -710,6 +748,7 @@ pub fn check(id: &str, tier: &str, seed: u64) -> i32 {
         chk.owns.iter().any(|p| class.starts_with(p))
             || class == "panic"
             || class == "hang"
+            || class == "abort"
             || class == "mem.use-after-free"
             || class == "mem.heap-overflow"
             || class.starts_with("segv")
@@ -748,20 +787,12 @@ pub fn check(id: &str, tier: &str, seed: u64) -> i32 {
         reported.push(v.2.clone());
         let (scenario, idx, class, detail) = (&v.0, v.1, &v.2, &v.3);
         // Recover the tape of that run in a child (it may crash).
-        let out = Command::new(exe())
-            .arg("dump-tape")
-            .arg(scenario)
-            .arg(seed.to_string())
-            .arg(idx.to_string())
-            .stderr(Stdio::null())
-            .output();
+        let out = child_output(&["dump-tape", scenario, &seed.to_string(), &idx.to_string()], 20);
         let full: Vec<u32> = out
-            .ok()
-            .map(|o| {
-                let text = String::from_utf8_lossy(&o.stdout).to_string();
+            .map(|text| {
                 match text.lines().find_map(|l| l.strip_prefix("TAPE ")) {
                     Some(t) => t.split(',').filter_map(|x| x.parse().ok()).collect(),
-                    // The run crashed: recover the draws echoed as "d<value>,".
+                    // The run crashed or hung: recover the draws echoed as "d<value>,".
                     None => text
                         .lines()
                         .next()
@@ -782,16 +813,7 @@ pub fn check(id: &str, tier: &str, seed: u64) -> i32 {
             && reproduces(scenario, &minimised, class);
         // Event log of the minimised run.
         let text: Vec<String> = minimised.iter().map(u32::to_string).collect();
-        let events = Command::new(exe())
-            .arg("tape-run")
-            .arg(scenario)
-            .arg(text.join(","))
-            .arg("--log")
-            .stderr(Stdio::null())
-            .output()
-            .ok()
-            .map(|o| String::from_utf8_lossy(&o.stdout).to_string())
-            .unwrap_or_default();
+        let events = child_output(&["tape-run", scenario, &text.join(","), "--log"], 10).unwrap_or_default();
         let ev_json: Vec<String> = events.lines().take(400).map(json_str).collect();
         let path = format!("/verif/replays/{}-{}-{}-{}.json", chk.id, scenario, seed, idx);
         let body = format!(
